@@ -29,6 +29,8 @@ pub enum Plan {
     SwapFuncParamType { func: usize, k: usize, ty: usize },
     SwapFuncRetType { func: usize, k: usize, ty: usize },
     DropFuncRet { func: usize },
+    /// One more declared return type than values returned (the caller would read a value nobody produced).
+    AddFuncRet { func: usize, ty: usize },
     SwapTypeDecls(usize),
     SwapLibfuncDecls(usize),
     StmtToReturn(usize),
@@ -212,6 +214,11 @@ pub fn apply(orig: &Program, plan: &Plan) -> Option<Program> {
             let tid = p.type_declarations.get(*ty)?.id.clone();
             let f = p.funcs.get_mut(*func)?;
             *f.signature.ret_types.get_mut(*k)? = tid;
+        }
+        Plan::AddFuncRet { func, ty } => {
+            let tid = p.type_declarations.get(*ty)?.id.clone();
+            let f = p.funcs.get_mut(*func)?;
+            f.signature.ret_types.push(tid);
         }
         Plan::DropFuncRet { func } => {
             let f = p.funcs.get_mut(*func)?;
@@ -488,6 +495,15 @@ pub fn plans(p: &Program, n: usize, rng: &mut Rng) -> Vec<Plan> {
                 }
                 if rng.chance(1, 3) {
                     Plan::DropFuncRet { func }
+                } else if rng.chance(1, 3) {
+                    // prefer repeating the last declared return type (the common prefix still matches)
+                    let last = p.funcs[func].signature.ret_types.last().unwrap().clone();
+                    let ty = if rng.chance(2, 3) {
+                        p.type_declarations.iter().position(|d| d.id == last).unwrap_or(0)
+                    } else {
+                        rng.below(nt as u64) as usize
+                    };
+                    Plan::AddFuncRet { func, ty }
                 } else {
                     Plan::SwapFuncRetType { func, k: rng.below(nr as u64) as usize, ty: rng.below(nt as u64) as usize }
                 }
